@@ -166,6 +166,58 @@ def word_level(ctx, stats, n):
                           {"query": q, "got": got, "want": want, "key": "%s %d %d" % (op, a, b)})
 
 
+FMT = {"dec": lambda z: str(z), "hex": lambda z: ("-" if z < 0 else "") + ("0x%x" % abs(z) if z else "0"),
+       "oct": lambda z: ("-" if z < 0 else "") + ("0%o" % abs(z) if z else "0"),
+       "bin": lambda z: ("-" if z < 0 else "") + ("0b" + bin(abs(z))[2:] if z else "0")}
+
+
+def render_level(ctx, stats, n):
+    """the result of an operation as the user sees it, in every radix: `A B op hex "%s"` ..."""
+    rng = ctx.sub_rng("render")
+    lat = sorted({ival(o) for o in lattice()})
+    qs, meta = [], []
+    for _ in range(n):
+        a, b = rng.choice(lat), rng.choice(lat)
+        op = rng.choice(["add", "sub", "mul"])
+        z = {"add": a + b, "sub": a - b, "mul": a * b}[op]
+        if not (-H <= z < W):
+            continue
+        r = rng.choice(["dec", "hex", "oct", "bin"])
+        qs.append('%d %d %s %s "%%s"' % (a, b, op, r))
+        meta.append((z, r))
+    for z in lat:                                   # and every lattice value itself
+        for r in ("hex", "oct", "bin"):
+            qs.append('%d %s "%%s"' % (z, r))
+            meta.append((z, r))
+    for q, (z, r), res in zip(qs, meta, zw.run_cases([zw.enc(q) for q in qs])):
+        stats["evaluations"] += 1
+        got = bytes.fromhex(res.results[0][0]["v"]).decode("latin1") if res.ok() and len(res.results) == 1 else None
+        if got != FMT[r](z):
+            ctx.violation("query `%s` renders %r; the exact result %d in that radix is %r" % (q, got, z, FMT[r](z)),
+                          {"query": q, "got": got, "want": FMT[r](z), "key": "render %s %d" % (r, z)})
+
+
+def literal_history(ctx, stats):
+    """literals parsed one after the other in ONE process: a rejected out-of-range literal must not
+    change what the next literals mean"""
+    good = ["18446744073709551615", "0xffffffffffffffff", "01777777777777777777777", "0b" + "1" * 64, "-9223372036854775808", "9223372036854775807", "0", "255"]
+    bad = ["18446744073709551616", "0x10000000000000000", "99999999999999999999999", "-9223372036854775809"]
+    seq = []
+    for b in bad:
+        seq += good + [b] + good
+    res = zw.run_cases([zw.enc(t) for t in seq], chunk=10 ** 6)
+    for t, r in zip(seq, res):
+        stats["evaluations"] += 1
+        if t in good:
+            want = int(t, 0) if not t.startswith("0") or t in ("0",) or t[1] in "xb" else int(t, 8)
+            ok = r.compile_error is None and len(r.results) == 1 and int(r.results[0][0]["v"]) == want
+            if not ok:
+                ctx.violation("literal `%s`, parsed after other literals in the same process, should denote %d; got %s" % (t, want, json.dumps(r.d)[:160]),
+                              {"query": t, "history": seq[:seq.index(t) + 1][-6:], "key": "literal-history " + t})
+        elif r.compile_error is None:
+            ctx.violation("out-of-range literal `%s` was accepted" % t, {"query": t, "key": "literal " + t})
+
+
 def compare_level(ctx, stats, n):
     """`A B ?lt` ... through the library (value_cst::cmp, constant::operator<): all six comparisons
     agree with mathematical order; pairs from the lattice, and every negative lattice value against
@@ -264,6 +316,8 @@ def run_check(ctx):
         word_level(ctx, stats, 3000 if ctx.tier == "quick" else 30000)
         literal_level(ctx, stats)
         compare_level(ctx, stats, 1500 if ctx.tier == "quick" else 15000)
+        render_level(ctx, stats, 1500 if ctx.tier == "quick" else 15000)
+        literal_history(ctx, stats)
 
     found_input = bool(ctx.violations)
     common.report_broken_obligations(ctx, oblig, found_input)
